@@ -354,6 +354,60 @@ def r4_check_before_use(a, tier):
     return rep
 
 
+def r6_scanner_bounds(a, tier):
+    from ..rules.bounds import BoundsChecker, module_len_consts, return_bound
+    rep = RuleReport(
+        'C08.R6',
+        'index-in-bounds in the character scanners (tatsu/input/cursor.py, tatsu/util/newlines.py, the cursor classes): every '
+        'non-slice, non-constant index into the text is dominated by a bound `index < len(text)` established by a comparison, a '
+        'range() bound, str.find() or a reviewed alias (self.len == len(self.textstr)), and not invalidated by a later '
+        'assignment - so no text makes a scanner raise IndexError',
+        floor=12,
+    )
+    fns = [f for f in a.p.functions.values() if f.module.name in ('tatsu.input.cursor', 'tatsu.util.newlines')]
+    for c in ('tatsu.input.textlines.TextLinesCursor', 'tatsu.input.buffer.BufferCursor', 'tatsu.input.buffer.Buffer'):
+        for m in ('current', 'peek', 'at', 'next'):
+            f = a.p.functions.get(f'{c}.{m}')
+            if f is not None:
+                fns.append(f)
+    fns = [f for f in fns if f.parent is None]
+    # pass 1: helpers that index their own parameters get a precondition instead of a finding
+    preconds: dict[str, list] = {}
+    for f in fns:
+        bc = BoundsChecker(f, module_len_consts(f.module))
+        bc.run()
+        if bc.param_violations and f.cls is None:
+            preconds[f.name] = [(ti, ii) for ti, ii, _, _ in bc.param_violations]
+    rbounds = {}
+    for f in fns:
+        if f.cls is None:
+            rb = return_bound(f, module_len_consts(f.module))
+            if rb is not None:
+                rbounds[f.name] = rb
+    rep.notes.append(f'helpers whose result is a valid index of their text argument (or a negative sentinel): {rbounds}')
+    for f in fns:
+        bc = BoundsChecker(f, module_len_consts(f.module), preconds)
+        bc.return_bounds = rbounds
+        bc.run()
+        rep.add({'function': f.qualname, 'text_indexings': bc.checked, 'unbounded': [m for _, m in bc.violations],
+                 'precondition_for_callers': [m for *_, m in bc.param_violations]})
+        for node, msg in bc.violations:
+            rep.fail(f.qualname, f'unbounded-index:{norm(node)}', f'{msg}: for some text this raises IndexError (e.g. when the position '
+                     f'is the last character)', f'{f.module.relpath}:{node.lineno}')
+        if bc.param_violations and f.cls is not None:
+            for _, _, node, msg in bc.param_violations:
+                rep.fail(f.qualname, f'unbounded-index:{norm(node)}', msg, f'{f.module.relpath}:{node.lineno}')
+    # a helper with a precondition must have at least one checked caller inside the analysed scope
+    for name in preconds:
+        called = any(isinstance(n, ast.Call) and isinstance(n.func, ast.Name) and n.func.id == name
+                     for f in fns for n in ast.walk(f.node))
+        if not called:
+            hf = next(f for f in fns if f.name == name)
+            rep.fail(hf.qualname, 'unchecked-precondition', f'{name}() indexes its text parameter without a bound and no caller in the '
+                     f'scanner modules establishes one', hf.loc)
+    return rep
+
+
 def r5_progress(a, tier):
     rep = c01.r4_progress(a, tier)
     rep.rule = 'C08.R5'
@@ -362,4 +416,4 @@ def r5_progress(a, tier):
     return rep
 
 
-RULES = [r1_one_factory, r2_sentinels, r3_cache_guards, r4_check_before_use, r5_progress]
+RULES = [r1_one_factory, r2_sentinels, r3_cache_guards, r4_check_before_use, r5_progress, r6_scanner_bounds]
